@@ -8,9 +8,9 @@ LEVEL = 'proof'
 RULES = {
     'C08.R1': 'the remove/merge pair in reduce is control-dependent on: node is not the root; both children[0] and children[1] present; both childless; left.aff == right.aff for exactly those two children',
     'C08.R2': 'PartialEq for AffFuncBase is the conjunction of mat == mat and bias == bias',
-    'C08.R3': 'bottom-up order (reversed breadth-first sequence from the root), no insertion in reduce, removal = (remove label 1, splice label 0)',
+    'C08.R3': 'bottom-up order (reversed breadth-first sequence from the root), the sweep is left only at the end of the sequence, no insertion in reduce, removal = (remove label 1, splice label 0)',
 }
-FLOORS = {'C08.R1': 2, 'C08.R2': 1, 'C08.R3': 3}
+FLOORS = {'C08.R1': 2, 'C08.R2': 1, 'C08.R3': 4}
 EXPLANATION = ('Given C12 (SPLICE/DETACH contracts): the two removed-or-kept siblings are both defined and carry the bit-identical map, so every input routed '
                'to either gets the same value; no growth; parents are examined after their children (cascades, idempotence); siblings differing in any '
                'coefficient or bias are kept.')
@@ -34,8 +34,7 @@ def run(ctx):
         site = 'AffTree::reduce#call:Tree::%s' % c.name
         missing = []
         # not the root
-        if not any(l[0] == 'false' and l[1][0] == 'bin' and l[1][1] == 'Eq' and {s(l[1][2]), s(l[1][3])} >= {s(v)} and
-                   (is_call(l[1][2], 'Tree::get_root_idx') or is_call(l[1][3], 'Tree::get_root_idx')) for l in lits):
+        if not any(op == 'Ne' and s(x) == s(v) and is_call(y, 'Tree::get_root_idx') for op, x, y in prune.cmp_facts(lits)):
             missing.append('node != root')
         def child(k):
             return ('index', ('field', ('call', 'Tree::tree_node', (a[0], v)), 'children'), ('const', k))
@@ -98,6 +97,26 @@ def run(ctx):
         ctx.ok('C08.R3', 'AffTree::reduce#order', 'iterates the reversed breadth-first sequence from the root: children before parents', b.span)
     else:
         ctx.bad('C08.R3', 'AffTree::reduce#order', 'reduce does not sweep the reversed breadth-first order from the root (cascading merges / idempotence lost)', b.span)
+    # the sweep visits every element of the sequence: the loop is left only when the sequence is exhausted (no break / early return)
+    from ..mir import edge_literal
+    outer = None
+    for h in hdrs:
+        if isinstance(h, int) and any(bb in cfg.loop_of(h) for bb, t, c in sites):
+            if outer is None or len(cfg.loop_of(h)) > len(cfg.loop_of(outer)):
+                outer = h
+    if outer is None:
+        ctx.bad('C08.R3', 'AffTree::reduce#sweep-complete', 'the merges are not inside a sweep loop over the node sequence', b.span)
+    else:
+        early = []
+        for a_, b_ in cfg.loop_exits(outer):
+            lit = edge_literal(b, R, a_[1], cfg.edge_label[a_]) if isinstance(a_, tuple) else None
+            if lit and lit[0] == 'is' and lit[2] == frozenset(['None']) and is_call(lit[1], 'Iterator::next') and seq is not None and s(lit[1][2][0]) == s(seq):
+                continue
+            early.append(b.where(a_[1] if isinstance(a_, tuple) else a_))
+        if early:
+            ctx.bad('C08.R3', 'AffTree::reduce#sweep-complete', 'the sweep can stop before every decision was examined (break / early return at %s): identical terminal siblings may survive' % early[0], early[0])
+        else:
+            ctx.ok('C08.R3', 'AffTree::reduce#sweep-complete', 'the sweep loop is left only when the node sequence is exhausted', b.span)
     ins = [Callee(t['func']).short for bb, t in b.calls() if Callee(t['func']).name in ('add_child_node', 'add_root', 'insert', 'add_terminal', 'add_decision')]
     if ins:
         ctx.bad('C08.R3', 'AffTree::reduce#no-insertion', 'reduce inserts nodes: %s' % ins, b.span)
